@@ -151,12 +151,12 @@ PROPS = {
         'not_decided': ['zero-mean unit-variance white noise', 'pulse height equals sqrt(T0) numerically (libm)'],
     },
     'C12': {
-        'technique': 'Verus contracts on the extracted text of MlpgMatrix::par, MlpgGlobalVariance::apply_gv / parmgen and Engine::generator; Kani harnesses on MlpgGlobalVariance::apply_gv and the switch-expansion hole',
+        'technique': 'Verus contracts on the extracted text of MlpgMatrix::par, MlpgGlobalVariance::apply_gv / parmgen and Engine::generator; MlpgGlobalVariance::{next_step, calc_hmmobj_derivative}; Kani harnesses on MlpgGlobalVariance::{apply_gv, calc_gv, conv_gv} and the switch-expansion hole',
         'level_text': 'unbounded proof that a stream without GV returns exactly solve() whatever the GV weight; that with GV the optimiser runs on the solution of the unmodified system with target GV mean x weight; that parmgen returns the trajectory untouched when no frame is eligible and otherwise applies conv_gv and exactly 5 next_step updates all driven by that same target and GV variance, each on freshly evaluated mean / variance / gradient (step sizes existentially quantified); and that gv_weight[i] reaches stream i only; bounded (T = 2, symbolic values): with no eligible frame the trajectory is returned unchanged',
-        'level_note': 'PARTIAL: "variance within 20% of the target for >= 100 eligible frames" and monotonicity in the weight are NOT decided (empirical convergence of a damped Newton iteration); conv_gv, calc_gv, calc_hmmobj_derivative and next_step are uninterpreted functions of their arguments',
-        'verus': ['engine', 'gvpar'],
-        'assumptions': [], 'trusted_base': [],
-        'not_decided': ['variance within 20% of gv_weight x GV mean', 'monotone growth with the weight', 'numerics of conv_gv / calc_gv / next_step (which frames they rescale)', 'step-size schedule of parmgen'],
+        'level_note': 'PARTIAL: "variance within 20% of the target for >= 100 eligible frames" and monotonicity in the weight are NOT decided (empirical convergence of a damped Newton iteration); next_step and calc_hmmobj_derivative are proved (unit gvstep) to be the per-frame update with the frame\'s OWN switch and the band product g = R c / objective of HTS_PStream_gv_parmgen; calc_gv and conv_gv (iterator chains) are checked bounded on exact concrete values (K-gvnum: statistics over, and rescaling of, the eligible frames only)',
+        'verus': ['engine', 'gvpar', 'gvstep'],
+        'assumptions': ['frame counts whose products win_size*T and T*T fit in usize (precondition of next_step / calc_hmmobj_derivative)'], 'trusted_base': [],
+        'not_decided': ['variance within 20% of gv_weight x GV mean', 'monotone growth with the weight', 'conv_gv / calc_gv beyond the bounded concrete check', 'step-size schedule of parmgen'],
     },
     'C14': {
         'technique': 'Verus contracts on the extracted text of MelCepstrum::postfilter_mcp (b-domain, floats and b2en uninterpreted), CepstrumT::{mc2b, freqt, c2ir}, CoefficientsT::{b2mc, b2en} and Engine::generator; Kani harnesses for the no-op cases; native contract on Condition::set_beta',
